@@ -42,9 +42,10 @@ def _run_dask(
             for index, item in enumerate(data.__dask_keys__())
         )
     else:
+        # Every chunk on its own (the keys of multidimensional arrays are nested lists)
         graph = dict(
             (f"{name}-{data.name}-{index}", (func, item))
-            for index, item in enumerate(data.__dask_keys__())
+            for index, item in enumerate(dask.core.flatten(data.__dask_keys__()))
         )
     items = list(graph.keys())
     result_name = f"{name}-{data.name}-result"
